@@ -9,7 +9,8 @@ DELTAS = [0, 0.0625, 0.125, 0.25, 0.5, 0.75, 1, 1.0, 1.5, 2, 3]
 
 @st.composite
 def timing_program(draw, max_routines=6, sends=False, nondyadic=False,
-                   apps=True, tempo_ops=False):
+                   apps=True, tempo_ops=False, etempo=False, busy=False,
+                   hand=False):
     """Nested routines with finite yield sequences on SystemClock, AppClock
     and TempoClocks of fixed tempo (C05, C07)."""
     nclocks = draw(st.integers(0, 3))
@@ -82,6 +83,10 @@ def timing_program(draw, max_routines=6, sends=False, nondyadic=False,
         for s in range(steps):
             tag[0] += 1
             body.append(['log', tag[0]])
+            if busy and draw(st.integers(0, 3)) == 0:
+                # system load: this step takes physical time
+                body.append(['busy', draw(st.sampled_from(
+                    [0.0625, 0.125, 0.25, 0.5]))])
             if sends and draw(st.integers(0, 2)) == 0:
                 body.append(send_op())
             if kids and draw(st.booleans()):
@@ -96,7 +101,8 @@ def timing_program(draw, max_routines=6, sends=False, nondyadic=False,
                                  quant()])
             if tempo_ops and nclocks and draw(st.integers(0, 5)) == 0:
                 # a routine changes a tempo while others sleep on that clock
-                body.append(['tempo', draw(st.integers(0, nclocks - 1)),
+                body.append(['etempo' if etempo and draw(st.booleans())
+                             else 'tempo', draw(st.integers(0, nclocks - 1)),
                              draw(st.sampled_from([0.5, 1, 2, 4]))])
             if s < steps - 1 or draw(st.booleans()):
                 body.append(['wait', draw(st.sampled_from(DELTAS))])
@@ -114,16 +120,44 @@ def timing_program(draw, max_routines=6, sends=False, nondyadic=False,
         top.append(['play', rt, draw(st.sampled_from(refs)), quant()])
     if sends and draw(st.booleans()):
         top.append(send_op())
+    if hand:
+        # routines stepped by hand from the main thread (after all plays)
+        for i in range(draw(st.integers(0, 2))):
+            nm = f'h{i}'
+            body = []
+            steps = draw(st.integers(1, 3))
+            for s in range(steps):
+                tag[0] += 1
+                body.append(['log', tag[0]])
+                if busy and draw(st.integers(0, 1)) == 0:
+                    body.append(['busy', draw(st.sampled_from(
+                        [0.125, 0.25, 0.5]))])
+                if sends:
+                    body.append(send_op())
+                body.append(['wait', draw(st.sampled_from(DELTAS))])
+            bodies[nm] = body
+            names.append(nm)
+            for _ in range(draw(st.integers(1, steps))):
+                top.append(['next', nm])
     return {'clocks': clocks,
             'routines': {nm: {'body': bodies[nm]} for nm in names},
             'top': top,
             'tail': draw(st.sampled_from([0, 0.5, 1, 3]))}
 
 
-DRAWS = [['rand', [10]], ['rand', [1.0]], ['rand2', [5]], ['rrand', [1, 100]],
-         ['rrand', [0.0, 1.0]], ['exprand', [1, 100]], ['linrand', [10]],
-         ['coin', [0.5]], ['choice', [[1, 2, 3, 4]]],
-         ['scramble', [[1, 2, 3, 4]]]]
+# one entry per branch of every routine-aware random builtin (sign and type
+# of the arguments select the branch)
+DRAWS = [['rand', [10]], ['rand', [-10]], ['rand', [1.0]],
+         ['rand2', [5]], ['rand2', [-5]], ['rand2', [2.5]],
+         ['linrand', [10]], ['linrand', [-10]], ['linrand', [2.0]],
+         ['bilinrand', [10]], ['bilinrand', [-10]], ['bilinrand', [1.0]],
+         ['sum3rand', [2.0]], ['coin', [0.5]],
+         ['rrand', [1, 100]], ['rrand', [100, 1]], ['rrand', [0.0, 1.0]],
+         ['rrand', [1, 2.5]], ['exprand', [1, 100]], ['exprand', [100, 1.0]],
+         ['xrand', [10, 3]], ['xrand2', [5, 1]], ['xrand2', [2.0]],
+         ['gauss', [0.0, 1.0]],
+         ['choice', [[1, 2, 3, 4]]], ['choices', [[1, 2, 3], [1, 2, 3]]],
+         ['scramble', [[1, 2, 3, 4]]], ['shuffle', [[1, 2, 3, 4]]]]
 
 
 @st.composite
@@ -167,6 +201,11 @@ def control_program(draw):
                 body.append([draw(st.sampled_from(['cwait', 'fwait'])),
                              draw(st.integers(0, 1))])
                 body.append(['log', nxt()])
+            elif k == 6 and nclocks and draw(st.integers(0, 3)) == 0:
+                # the routine moves the beats of (possibly) its own clock
+                # back during its step, then yields a delta
+                body.append(['beats_add', draw(st.integers(0, nclocks - 1)),
+                             -0.5])
             body.append(['wait', draw(st.sampled_from(
                 [0.25, 0.25, 0.5, 0.75, 1, 1.0, 1.5, 2]))])
         routines[nm] = {'body': body}
